@@ -1,22 +1,34 @@
 #!/bin/bash
 # Independently confirm a sub-agent's seeded defect in its scratch worktree:
 #   existing suite passes with the change; demo fails with it and passes without it.
-# usage: tools/verify_seeded.sh <Cxx> [worktree]     -> writes /tmp/mut/<Cxx>.verify.log
+# usage: tools/verify_seeded.sh <label> [worktree]     -> writes /tmp/mut/<label>.verify.log
 ID="$1"; W="${2:-/tmp/mut/$ID}"
+mkdir -p /tmp/mut
 L="/tmp/mut/$ID.verify.log"
 cd "$W" || exit 2
 export CARGO_NET_OFFLINE=true
+export CARGO_TARGET_DIR="$W/target-verify"
+demo() {
+  if [ -f tests/seeded_demo.rs ]; then
+    cargo test --offline --features verif --test seeded_demo 2>&1 | grep -E "^test result|^test .* (ok|FAILED)" | head -12
+  elif [ -x demo/run.sh ]; then
+    ./demo/run.sh >/dev/null 2>&1; echo "demo/run.sh exit=$?"
+  else
+    echo "no demo found"
+  fi
+}
 {
 echo "== $ID in $W"
 git diff --stat -- src
 echo "== existing suite (lib tests) WITH the change"
 cargo test --offline --lib 2>&1 | grep -E "^test result|FAILED|panicked" | head -5
-echo "== demo WITH the change (expected: FAIL)"
-cargo test --offline --features verif --test seeded_demo 2>&1 | grep -E "^test result|^test .* (ok|FAILED)" | head -12
+echo "== demo WITH the change (expected: FAIL / exit 1)"
+demo
 git stash push -q -- src
-echo "== demo WITHOUT the change (expected: ok)"
-cargo test --offline --features verif --test seeded_demo 2>&1 | grep -E "^test result|^test .* (ok|FAILED)" | head -12
+echo "== demo WITHOUT the change (expected: ok / exit 0)"
+demo
 git stash pop -q
 git diff --stat -- src | tail -1
 } > "$L" 2>&1
+rm -rf "$W/target-verify"
 echo "done $ID" >> "$L"
